@@ -11,6 +11,7 @@ mod probe;
 mod replay;
 mod rx;
 mod sortcases;
+mod splitc;
 mod types;
 
 fn arg(args: &[String], name: &str) -> Option<String> {
@@ -97,6 +98,13 @@ fn main() {
         }
         Some("numbers") => {
             println!("{}", numbers::run(&arg(&args, "--in").expect("--in"), &arg(&args, "--out").expect("--out")));
+        }
+        Some("splitfacts") => {
+            let n: usize = arg(&args, "--count").and_then(|s| s.parse().ok()).unwrap_or(60);
+            println!("{}", splitc::facts(n));
+        }
+        Some("splitrun") => {
+            println!("{}", splitc::run(&arg(&args, "--in").expect("--in"), &arg(&args, "--out").expect("--out")));
         }
         Some("merge") => {
             println!("{}", merge::run(&arg(&args, "--in").expect("--in"), &arg(&args, "--out").expect("--out")));
